@@ -536,6 +536,18 @@ class Hessdiag(Derivative):
         options.pop('n', None)
         super(Hessdiag, self).__init__(f, step=step, method=method, n=2, order=order, **options)
 
+    def _get_functions(self, args, kwds):
+        fun = self.fun
+
+        def export_fun(x):
+            f_x = fun(x, *args, **kwds)
+            if np.shape(f_x) == (1,):
+                # a scalar function may return its value as a length-1 array
+                return f_x[0]
+            return f_x
+
+        return self.fd_rule.diff, export_fun
+
     def __call__(self, x, *args, **kwds):
         return super(Hessdiag, self).__call__(np.atleast_1d(x), *args, **kwds)
 
